@@ -72,49 +72,57 @@ def crash_signature(cmd, env, cwd, timeout=240):
     return "overflow:" + "+".join(cyc), None
 
 
+UTILITY_MODULES = {"sexp", "comptypes", "srcloc", "util", "runtypes", "prims", "gensym", "dialect", "mod", "compiler", "clvm", "__type_compatibility__", "?"}
+
+
 def _sample(pid):
-    """chialisp frames (full names) of the thread that has most of them, outermost first (outer 60 frames)"""
-    g = subprocess.run(["gdb", "-q", "-batch", "-p", str(pid), "-ex", "set pagination off", "-ex", "thread apply all bt -60"],
+    """chialisp frames (full names) of the thread that has most of them: (outermost-first list of the outer 40, innermost 12)"""
+    g = subprocess.run(["gdb", "-q", "-batch", "-p", str(pid), "-ex", "set pagination off", "-ex", "thread apply all bt 40", "-ex", "echo ===OUTER===\\n", "-ex", "thread apply all bt -40"],
                        stdout=subprocess.PIPE, stderr=subprocess.STDOUT, text=True, timeout=120)
+    inner_txt, _, outer_txt = g.stdout.partition("===OUTER===")
     best = []
-    for block in re.split(r"\nThread \d+ ", g.stdout):
+    for block in re.split(r"\nThread \d+ ", outer_txt):
         fr = _frames_full(block)
         if len(fr) > len(best):
             best = fr
-    return list(reversed(best))
+    inner = []
+    for block in re.split(r"\nThread \d+ ", inner_txt):
+        fr = _frames_full(block)
+        if len(fr) > len(inner):
+            inner = fr
+    return list(reversed(best)), inner
 
 
 def hang_signature(cmd, env, cwd, settle=25):
     """Signature of a run that does not end: hang:<entry>><home module>.  `entry` is the outermost chialisp frame (the tool
-    entry point that does not return); `home` is the source module of the innermost frame of the part of the stack that
-    stays put over three samples taken 2 s apart (where the process keeps coming back to: a loop's own frame or the head of a
-    runaway recursion; the exact function varies with the input, its module does not).  Two non-terminating defects reached
-    through the same entry point but living in different modules get different signatures."""
+    entry point that does not return); `home` is the source module that holds most of the 40 innermost chialisp frames (data-structure helper modules not counted) over
+    three samples taken 2 s apart (where the time goes; the exact functions vary with the input and the moment, the module
+    they live in does not).  Two non-terminating defects reached through the same entry point but spinning in different
+    modules get different signatures."""
     p = subprocess.Popen(cmd, env=env, cwd=cwd, stdout=subprocess.DEVNULL, stderr=subprocess.DEVNULL)
-    stacks = []
+    outers, votes = [], {}
     try:
         time.sleep(settle)
         for k in range(3):
             if p.poll() is not None:
                 return None, f"terminated by itself (rc={p.returncode})"
-            st = _sample(p.pid)
-            if st:
-                stacks.append(st)
+            outer, inner = _sample(p.pid)
+            if outer:
+                outers.append(outer)
+            for f in inner:
+                m = _module(f)
+                if m in UTILITY_MODULES:
+                    continue  # data-structure helpers every phase calls into
+                votes[m] = votes.get(m, 0) + 1
             time.sleep(2)
     finally:
         p.kill()
         p.wait()
-    if not stacks:
+    if not outers or not votes:
         return None, "no chialisp frames"
-    common = []
-    for fr in zip(*stacks):
-        if all(f == fr[0] for f in fr):
-            common.append(fr[0])
-        else:
-            break
-    if not common:
-        return None, "no stable frames"
-    return f"hang:{_short(common[0])}>{_module(common[-1])}", None
+    entry = _short(outers[0][0])
+    home = sorted(votes.items(), key=lambda kv: (-kv[1], kv[0]))[0][0]
+    return f"hang:{entry}>{home}", None
 
 
 PHASES = [
